@@ -49,6 +49,18 @@ pub fn with_corpus_store<T>(lang: &'static str, f: impl FnOnce(&St, &[Rec]) -> T
     })
 }
 
+pub fn with_corpus_store_mut<T>(lang: &'static str, f: impl FnOnce(&mut St, &[Rec]) -> T) -> T {
+    let recs = corpus_recs();
+    CORPUS_STORES.with(|cs| {
+        let cs = &mut *cs.borrow_mut();
+        if !cs.iter().any(|(l, _)| *l == lang) {
+            cs.push((lang, St::build_sentinel(lang, &recs, recs.len())));
+        }
+        let st = &mut cs.iter_mut().find(|(l, _)| *l == lang).unwrap().1;
+        f(st, &recs)
+    })
+}
+
 fn len_class(n: usize) -> &'static str {
     match n {
         0..=4 => "len<5",
@@ -88,7 +100,20 @@ fn positions(cx: &mut Cx, lo: usize, hi: usize) -> Vec<usize> {
     v
 }
 
-fn lead_in(cx: &mut Cx, st: &St, q: &str) {
+fn lead_in(cx: &mut Cx, st: &mut St, q: &str) {
+    if cx.rng.chance(1, 24) {
+        // the very same query just before, under a lower limit (0, 1 or 2), which is then restored: whatever the store
+        // kept from that search was computed for a smaller candidate budget
+        let keep = st.store.limit;
+        st.store.limit = cx.rng.below(3).min(keep);
+        let _ = st.search_ids(q);
+        if cx.rng.chance(1, 2) {
+            let _ = st.search_ids(&format!("{} ", q));
+        }
+        st.store.limit = keep;
+        cx.count("judged queries preceded by the same query under a lower limit");
+        return;
+    }
     if !cx.rng.chance(1, 8) {
         return;
     }
@@ -120,9 +145,17 @@ fn lead_in(cx: &mut Cx, st: &St, q: &str) {
 }
 
 impl Finds {
-    fn check_record(&self, cx: &mut Cx, st: &St, store_desc: &serde_json::Value, rec: &Rec, done_words: &mut BTreeSet<String>) {
+    fn check_record(&self, cx: &mut Cx, st: &mut St, store_desc: &serde_json::Value, rec: &Rec, done_words: &mut BTreeSet<String>) {
+        // the oracle side tokenises with a language object of its own (same language), so that the store can be
+        // handed on mutably (limit dips in the lead-in)
+        let own = take_lang(st.lang);
+        self.check_record_with(cx, st, &own, store_desc, rec, done_words);
+        give_lang(st.lang, own);
+    }
+
+    fn check_record_with(&self, cx: &mut Cx, st: &mut St, lobj: &Lang, store_desc: &serde_json::Value, rec: &Rec, done_words: &mut BTreeSet<String>) {
         let lang = st.lang;
-        let lobj = &st.store.lang;
+        let limit_shown = st.store.limit;
         let tok = st.tok_record(&rec.1);
         let alpha = gen::lower_alphabet(lang);
         if tok.words.len() > 20 {
@@ -131,7 +164,7 @@ impl Finds {
         let mut report = |cx: &mut Cx, clause: &str, q: &str, got: &Vec<usize>, extra: serde_json::Value| {
             cx.fail(
                 clause,
-                json!({"lang": lang, "store": store_desc, "limit": st.store.limit, "record": {"id": rec.0, "title": rec.1, "rating": rec.2},
+                json!({"lang": lang, "store": store_desc, "limit": limit_shown, "record": {"id": rec.0, "title": rec.1, "rating": rec.2},
                        "query": q, "expected_id": rec.0, "got_ids": got, "info": extra}),
             );
         };
@@ -433,7 +466,7 @@ impl Finds {
     fn typo_exhaustive(&self, cx: &mut Cx, lang: &'static str, word: &str) {
         let title = if cx.rng.chance(1, 2) { word.to_string() } else { format!("{} {}", word, gen::rand_word(&mut cx.rng, &gen::lower_alphabet(lang), 3, 6)) };
         let rec: Rec = (1, title, 3);
-        let st = St::build_sentinel(lang, &[rec.clone()], 5);
+        let mut st = St::build_sentinel(lang, &[rec.clone()], 5);
         let tok = st.tok_record(&rec.1);
         if tok.words.is_empty() {
             return;
@@ -477,7 +510,7 @@ impl Finds {
                 continue;
             }
             cx.ctx(format!("C04 exhaustive lang={} title={:?} q={:?}", lang, rec.1, q));
-            lead_in(cx, &st, &q);
+            lead_in(cx, &mut st, &q);
             let got = st.search_ids(&q);
             cx.eval();
             cx.count("exhaustive-letter edits");
@@ -517,10 +550,10 @@ impl Prop for Finds {
     }
     fn floors(&self) -> Vec<(&'static str, u64, u64)> {
         match self.0 {
-            Which::Prefix => vec![("prefix len 1", 500, 5000), ("prefix len 2", 500, 5000), ("prefix len >3", 2000, 20000), ("word with stem < len", 200, 2000), ("function word", 20, 200), ("word > 20 letters", 20, 200), ("stores with a title in letters outside the BMP", 20, 200), ("stores with a word (or word pair) of more than 1024 letters", 2, 20), ("stores cleared and refilled before the judged searches", 100, 1000), ("judged queries preceded by the searches of a person typing them", 5000, 50000), ("titles with more than 20 words", 100, 1000)],
-            Which::Typo => vec![("substitution at first", 50, 500), ("insertion at first", 50, 500), ("deletion at first", 50, 500), ("transposition at first", 50, 500), ("transposition at last", 50, 500), ("len 5", 200, 2000), ("len >20", 100, 1000), ("stores with a title in letters outside the BMP", 20, 200), ("stores with a word (or word pair) of more than 1024 letters", 2, 20), ("stores cleared and refilled before the judged searches", 100, 1000), ("typo letter that is an accented letter of the language", 3000, 30000), ("judged queries preceded by the searches of a person typing them", 5000, 50000), ("titles with more than 20 words", 30, 300), ("exhaustive-letter edits", 30000, 250000), ("exhaustive-letter words that are function words", 150, 150)],
-            Which::Whole => vec![("whole title", 1000, 10000), ("first last", 300, 3000), ("stores with a title in letters outside the BMP", 20, 200), ("stores with a word (or word pair) of more than 1024 letters", 2, 20), ("stores cleared and refilled before the judged searches", 100, 1000), ("judged queries preceded by the searches of a person typing them", 5000, 50000), ("last first", 300, 3000), ("title with function word", 50, 500), ("titles with more than 20 words", 200, 2000), ("catalogues searched while small, then grown and given limit = N", 6, 60), ("titles with more than 65 536 distinct grams", 1, 10)],
-            Which::SplitJoin => vec![("split", 2000, 20000), ("split after first letter", 200, 2000), ("stores with a title in letters outside the BMP", 20, 200), ("stores with a word (or word pair) of more than 1024 letters", 2, 20), ("stores cleared and refilled before the judged searches", 100, 1000), ("judged queries preceded by the searches of a person typing them", 5000, 50000), ("join", 100, 1000), ("join with 1-letter first word", 3, 30), ("titles with more than 20 words", 100, 1000), ("split followed by a separator", 20000, 200000), ("split next to symbols inside the word", 300, 3000)],
+            Which::Prefix => vec![("prefix len 1", 500, 5000), ("prefix len 2", 500, 5000), ("prefix len >3", 2000, 20000), ("word with stem < len", 200, 2000), ("function word", 20, 200), ("word > 20 letters", 20, 200), ("judged queries preceded by the same query under a lower limit", 1000, 10000), ("stores with a title in letters outside the BMP", 20, 200), ("stores with a word (or word pair) of more than 1024 letters", 2, 20), ("stores cleared and refilled before the judged searches", 100, 1000), ("judged queries preceded by the searches of a person typing them", 5000, 50000), ("titles with more than 20 words", 100, 1000)],
+            Which::Typo => vec![("substitution at first", 50, 500), ("insertion at first", 50, 500), ("deletion at first", 50, 500), ("transposition at first", 50, 500), ("transposition at last", 50, 500), ("len 5", 200, 2000), ("len >20", 100, 1000), ("judged queries preceded by the same query under a lower limit", 1000, 10000), ("stores with a title in letters outside the BMP", 20, 200), ("stores with a word (or word pair) of more than 1024 letters", 2, 20), ("stores cleared and refilled before the judged searches", 100, 1000), ("typo letter that is an accented letter of the language", 3000, 30000), ("judged queries preceded by the searches of a person typing them", 5000, 50000), ("titles with more than 20 words", 30, 300), ("exhaustive-letter edits", 30000, 250000), ("exhaustive-letter words that are function words", 150, 150)],
+            Which::Whole => vec![("whole title", 1000, 10000), ("first last", 300, 3000), ("judged queries preceded by the same query under a lower limit", 1000, 10000), ("stores with a title in letters outside the BMP", 20, 200), ("stores with a word (or word pair) of more than 1024 letters", 2, 20), ("stores cleared and refilled before the judged searches", 100, 1000), ("judged queries preceded by the searches of a person typing them", 5000, 50000), ("last first", 300, 3000), ("title with function word", 50, 500), ("titles with more than 20 words", 200, 2000), ("catalogues searched while small, then grown and given limit = N", 6, 60), ("titles with more than 65 536 distinct grams", 1, 10)],
+            Which::SplitJoin => vec![("split", 2000, 20000), ("split after first letter", 200, 2000), ("judged queries preceded by the same query under a lower limit", 1000, 10000), ("stores with a title in letters outside the BMP", 20, 200), ("stores with a word (or word pair) of more than 1024 letters", 2, 20), ("stores cleared and refilled before the judged searches", 100, 1000), ("judged queries preceded by the searches of a person typing them", 5000, 50000), ("join", 100, 1000), ("join with 1-letter first word", 3, 30), ("titles with more than 20 words", 100, 1000), ("split followed by a separator", 20000, 200000), ("split next to symbols inside the word", 300, 3000)],
         }
     }
     fn ratios(&self) -> Vec<(&'static str, &'static str, f64, f64)> {
@@ -575,7 +608,7 @@ impl Prop for Finds {
                 let n = recs.len();
                 let limit = *cx.rng.pick(&[n, n, n + 1, 10.max(n), 65536]);
                 // one store in six had another life before: fewer, other records, a search, then emptied and refilled
-                let st = if cx.rng.chance(1, 6) {
+                let mut st = if cx.rng.chance(1, 6) {
                     let mut st = St::sentinel(lang, limit);
                     for k in 0..cx.rng.range(1, n) {
                         st.add(&(5000 + k, gen::realistic_title(&mut cx.rng, lang, &corpus), 1));
@@ -593,7 +626,7 @@ impl Prop for Finds {
                 };
                 let desc = json!(recs);
                 for r in &recs {
-                    self.check_record(cx, &st, &desc, r, &mut done);
+                    self.check_record(cx, &mut st, &desc, r, &mut done);
                 }
             }
             "vocab" => {
@@ -605,16 +638,16 @@ impl Prop for Finds {
                     let post = ["", "!", "'", " ", ")."][(k / 5) % 5];
                     let title = format!("{}{}{}", pre, w, post);
                     let rec: Rec = (k + 1, title, 5);
-                    let st = St::build_sentinel(lang, &[rec.clone()], 1);
+                    let mut st = St::build_sentinel(lang, &[rec.clone()], 1);
                     done.clear();
-                    self.check_record(cx, &st, &json!([rec.clone()]), &rec, &mut done);
+                    self.check_record(cx, &mut st, &json!([rec.clone()]), &rec, &mut done);
                 }
                 // and all of them together in one store
                 let recs: Vec<Rec> = words.iter().enumerate().map(|(k, w)| (k + 1, w.to_string(), k % 4)).collect();
-                let st = St::build_sentinel(lang, &recs, recs.len());
+                let mut st = St::build_sentinel(lang, &recs, recs.len());
                 done.clear();
                 for r in &recs {
-                    self.check_record(cx, &st, &json!("all vocabulary words of the language, one record each"), r, &mut done);
+                    self.check_record(cx, &mut st, &json!("all vocabulary words of the language, one record each"), r, &mut done);
                 }
             }
             "letters" => {
@@ -653,9 +686,9 @@ impl Prop for Finds {
                     words.push(s(&w));
                 }
                 let recs: Vec<Rec> = vec![(1, "metal mailbox".to_string(), 1), (2, words.join(" "), 2), (3, words[1].clone(), 3)];
-                let st = St::build_sentinel(lang, &recs, 10);
+                let mut st = St::build_sentinel(lang, &recs, 10);
                 cx.count("titles with more than 65 536 distinct grams");
-                self.check_record(cx, &st, &json!(format!("3 records; record 2 has {} words of 230 different letters", nwords)), &recs[1], &mut done);
+                self.check_record(cx, &mut st, &json!(format!("3 records; record 2 has {} words of 230 different letters", nwords)), &recs[1], &mut done);
             }
             "big" => {
                 // a catalogue of 4200-9000 records dominated by one word (posting lists beyond 4096 / 8192
@@ -731,14 +764,14 @@ impl Prop for Finds {
                         let _ = st.search(&t.1);
                         st.store.limit = recs.len();
                     }
-                    self.check_record(cx, &st, &json!(format!("{}{} records '<random word> {}' plus {} ids titled {:?} plus {:?}, limit = N", how, n, dom, dups, dup_title, &targets[..5])), t, &mut done);
+                    self.check_record(cx, &mut st, &json!(format!("{}{} records '<random word> {}' plus {} ids titled {:?} plus {:?}, limit = N", how, n, dom, dups, dup_title, &targets[..5])), t, &mut done);
                 }
                 cx.count("catalogues of 4200-9000 records dominated by one word");
             }
             "corpus" => {
                 let lang: &'static str = if idx % 2 == 0 { "en" } else { "none" };
                 let k = if cx.tier == Tier::Thorough { (idx / 2) as usize } else { cx.rng.below(3285) };
-                with_corpus_store(lang, |st, recs| {
+                with_corpus_store_mut(lang, |st, recs| {
                     let r = &recs[k % recs.len()];
                     self.check_record(cx, st, &json!("whole e-commerce corpus (harness/data/ecommerce.tsv), limit = N"), r, &mut done);
                 });
